@@ -187,7 +187,7 @@ CHECKS = {
             "(prefix of an interaction, message texts in the constrained language, sent and received data exactly once in order, "
             "valid peers never fail, invalid ones always do)",
             "bounded: 3 protocols (two external senders; request/response with an optional second round; a state in which either "
-            "side may speak), 60 sampled / all 243 schedules of length 5, 4-6 peer faults; sockets and threads replaced by a "
+            "side may speak), 60 sampled of the 243 schedules of length 5 (quick) / all 2187 of length 7 (thorough; peer faults on every 9th), 4-6 peer faults; sockets and threads replaced by a "
             "deterministic scheduler; one sender to two fuzzer-side recipients only as pinned witness F20",
             "TLA+ model with environment (TLC, safety + liveness) + TLC-generated schedules driving the real loop + TLC trace validation"),
 }
